@@ -216,13 +216,17 @@ func (d *Decoder) readClassDef() (interface{}, error) {
 		return nil, newCodecError("ReadClassDef", err)
 	}
 
-	fields := make([]string, count)
+	if count < 0 {
+		return nil, newCodecError("ReadClassDef", "negative field count %d", count)
+	}
+	// grow with the names actually present: the declared count alone must not drive the allocation
+	fields := make([]string, 0, minInt(int(count), _maxPreAlloc))
 	for i := 0; i < int(count); i++ {
 		s, err := d.readString(_tagRead)
 		if err != nil {
 			return nil, newCodecError("ReadClassDef", err)
 		}
-		fields[i] = s
+		fields = append(fields, s)
 	}
 	cls := ClassDef{clsName, fields}
 	return cls, nil
@@ -230,8 +234,14 @@ func (d *Decoder) readClassDef() (interface{}, error) {
 
 //readTagObject read tag object
 func (d *Decoder) readTagObject() (interface{}, error) {
-	i, _ := d.readInt(_tagRead)
+	i, err := d.readInt(_tagRead)
+	if err != nil {
+		return nil, newCodecError("readTagObject", err)
+	}
 	idx := int(i)
+	if idx < 0 || idx >= len(d.clsDefList) {
+		return nil, newCodecError("readTagObject", "cls def ref index %d over max %d", idx, len(d.clsDefList))
+	}
 	clsD := d.clsDefList[idx]
 	typ, ok := d.typMap[clsD.FullClassName]
 	if !ok {
